@@ -233,7 +233,7 @@ def build(name, repo, outdir):
                 funcs.append({"label": label, "kind": "extract", "src": sec["src"], "spec": sec["spec"],
                               "lines": [l0, cur_line()], "info": info, "src_span": list(span),
                               "props": sec["kv"].get("props", "").split(",") if sec["kv"].get("props") else [],
-                              "must_panic": "rename" in sec["kv"] and sec["kv"]["rename"].endswith("__must_panic")})
+                              "item_kind": "type" if sec["spec"].split(" :: ")[-1].split()[0] in ("struct", "enum", "type", "const") else "fn"})
 
     emit_sections(unit_sections(name), True)
     text = "".join(out)
